@@ -242,6 +242,23 @@ func runFunction(vc *VC, u *Universe, pi *PkgInfo, fc *FuncContract, fn *ssa.Fun
 			}
 		}
 	}
+	if len(fc.NotClaimed) > 0 {
+		// obligations the contract explicitly leaves undecided: generated, not checked, reported as such
+		var keep []*Obl
+		for _, o := range vc.obls {
+			drop := false
+			for _, nc := range fc.NotClaimed {
+				if o.Kind == nc[0] && strings.Contains(sourceLine(o.Pos.String()), nc[1]) {
+					drop = true
+					x.note(fmt.Sprintf("abstracted (not claimed): obligation %s (%s, %s) is left undecided: %s", o.Name, o.Desc, o.Pos, nc[2]))
+				}
+			}
+			if !drop {
+				keep = append(keep, o)
+			}
+		}
+		vc.obls = keep
+	}
 	if fc.Tier == "thorough" {
 		for _, o := range vc.obls {
 			o.Slow = true
